@@ -85,7 +85,7 @@ macro_rules! parse_len {
 parse_len!(c17_k8_parse_r10_len3, 1, 10, 3, 5);
 //@ name=c17_k8_parse_r16_len3 prop=C17,C11 tier=quick profile=k8 funcs="Uint::from_str_radix_vartime,radix_decode_str_aligned_digits (push_limb / InputSize)" bound="u8 words, radix 16, Uint<1>: every 3-character ASCII string" free_bits=21 core=C11
 parse_len!(c17_k8_parse_r16_len3, 1, 16, 3, 5);
-//@ name=c17_k8_parse_r36_len2_u1 prop=C17,C11 tier=quick profile=k8 funcs="Uint::from_str_radix_vartime,radix_decode_str_digits" bound="u8 words, radix 36, Uint<1>: every 2-character ASCII string (35*36+35 > 255)" free_bits=14
+//@ name=c17_k8_parse_r36_len2_u1 prop=C17,C11,C16 tier=quick profile=k8 funcs="Uint::from_str_radix_vartime,radix_decode_str_digits" bound="u8 words, radix 36, Uint<1>: every 2-character ASCII string (35*36+35 > 255)" free_bits=14 core=C16
 parse_len!(c17_k8_parse_r36_len2_u1, 1, 36, 2, 4);
 //@ name=c17_k8_parse_r10_len3_u2 prop=C17,C11 tier=thorough profile=k8 funcs="Uint::from_str_radix_vartime,radix_decode_str_digits (two limbs: mac over existing limbs)" bound="u8 words, radix 10, Uint<2>: every 3-character ASCII string" free_bits=21
 parse_len!(c17_k8_parse_r10_len3_u2, 2, 10, 3, 5);
@@ -154,9 +154,9 @@ encode_shift!(c17_k8_encode_r2, 2, 1);
 //@ name=c17_k8_encode_r32 prop=C17,C11 tier=quick profile=k8 funcs="radix_encode_limbs_by_shifting" bound="u8 words, radix 32 (5 bits per digit: digits straddle limb boundaries), 2 limbs: every value" free_bits=16
 encode_shift!(c17_k8_encode_r32, 32, 5);
 
-//@ name=c17_k8_parse_r10_len2 prop=C17,C11 tier=quick profile=k8 funcs="Uint::from_str_radix_vartime,radix_decode_str,radix_preprocess_str,radix_decode_str_digits" bound="u8 words, radix 10, Uint<1>: every 2-character ASCII string" free_bits=14 core=C11
+//@ name=c17_k8_parse_r10_len2 prop=C17,C11,C16 tier=quick profile=k8 funcs="Uint::from_str_radix_vartime,radix_decode_str,radix_preprocess_str,radix_decode_str_digits" bound="u8 words, radix 10, Uint<1>: every 2-character ASCII string" free_bits=14 core=C11,C16
 parse_len!(c17_k8_parse_r10_len2, 1, 10, 2, 4);
 //@ name=c17_k8_parse_r10_len1 prop=C17,C11 tier=quick profile=k8 funcs="Uint::from_str_radix_vartime,radix_decode_str,radix_preprocess_str,radix_decode_str_digits" bound="u8 words, radix 10, Uint<1>: every 1-character ASCII string ('+', '_', '0' alone)" free_bits=7
 parse_len!(c17_k8_parse_r10_len1, 1, 10, 1, 4);
-//@ name=c17_k8_parse_r16_len2 prop=C17,C11 tier=quick profile=k8 funcs="Uint::from_str_radix_vartime,radix_decode_str_aligned_digits" bound="u8 words, radix 16, Uint<1>: every 2-character ASCII string" free_bits=14
+//@ name=c17_k8_parse_r16_len2 prop=C17,C11,C16 tier=quick profile=k8 funcs="Uint::from_str_radix_vartime,radix_decode_str_aligned_digits" bound="u8 words, radix 16, Uint<1>: every 2-character ASCII string" free_bits=14 core=C16
 parse_len!(c17_k8_parse_r16_len2, 1, 16, 2, 4);
